@@ -103,7 +103,10 @@ impl TextSpec {
             }
         }
         for inc in &self.includes {
-            if self.dotted {
+            if self.dotted && self.version % 2 == 0 {
+                // through the parent directory and back ("/w/../w/b.td")
+                s.push_str(&format!("include \"../w/{inc}\"{e}"));
+            } else if self.dotted {
                 s.push_str(&format!("include \"./{inc}\"{e}"));
             } else {
                 s.push_str(&format!("include \"{inc}\"{e}"));
